@@ -107,6 +107,12 @@ class MemoryWorkflowStore(AbstractWorkflowStore):
     async def update(self, handler: PersistentHandler) -> None:
         self.handlers[handler.handler_id] = handler
         if is_terminal_status(handler.status):
+            # one queue entry per handler: a repeated terminal write moves the
+            # handler to the back instead of counting it twice
+            try:
+                self._terminal_queue.remove(handler.handler_id)
+            except ValueError:
+                pass
             self._terminal_queue.append(handler.handler_id)
             self._evict_oldest_completed()
 
